@@ -62,7 +62,7 @@ func restProcs(web int) []sc.ProcSpec {
 		{Name: "late", Command: "late", Deps: []sc.Dep{{On: "job", Cond: "process_completed"}}},
 		{Name: "off", Command: "off", Disabled: true},
 		// a legal name that needs escaping on its way through a URL path and a query string
-		{Name: "my job", Command: "myjob"},
+		{Name: "my job", Command: "myjob", Extra: map[string]string{"x-owner": "team-a"}},
 	}
 }
 
@@ -295,6 +295,11 @@ func checkRest(c RestCase) pbt.Verdict {
 				}
 				if canonState(direct) != canonState(got) {
 					return fail(i, st, "config differs:\ndirect %s\nrest   %s", canonState(direct), canonState(got))
+				}
+				// fields are compared on the Go side too: a field dropped from the JSON encoding would
+				// vanish from both canonical forms above
+				if fmt.Sprint(direct.Extensions) != fmt.Sprint(got.Extensions) && (len(direct.Extensions) > 0 || len(got.Extensions) > 0) {
+					return fail(i, st, "extension fields (x-...) differ: the runner holds %v, the REST answer decodes to %v", direct.Extensions, got.Extensions)
 				}
 			}
 			if clientSafe(st.Name) {
